@@ -566,7 +566,7 @@ Definition parse_group (line : string) : res group :=
   match split_on ":" (trim_space line) with
   | [a; b; c; d] =>
       do gid <- from_opt (parse_int64 c);
-      Ok (mkGroup a b (to_uint32 gid) (split_on "," d))
+      Ok (mkGroup a b (to_uint32 gid) (if d =? "" then [] else split_on "," d))   (* fix C16-F6: an empty field is no member *)
   | _ => Err
   end.
 
